@@ -82,19 +82,19 @@ func EscapeJsonStr(s string) string {
 		}
 
 		c, size := utf8.DecodeRuneInString(s[i:])
-		if c != utf8.RuneError {
+		if c != utf8.RuneError || size != 1 {
+			// a valid rune, including a correctly encoded U+FFFD (size 3): keep it as is
 			i += size
 			continue
 		}
 
-		if size == 1 {
-			if start < i {
-				e.WriteString(s[start:i])
-			}
-			e.WriteString(`\ufffd`)
-			i += size
-			start = i
+		// an invalid byte
+		if start < i {
+			e.WriteString(s[start:i])
 		}
+		e.WriteString(`\ufffd`)
+		i += size
+		start = i
 	}
 
 	if start < len(s) {
